@@ -68,3 +68,27 @@ fn c05_q_onnx_tensor_from_bytes_rank2() {
         Err(e) => std::mem::forget(e),
     }
 }
+
+/// FLOAT16 initializers take a separate path (convert_f16_constant: f16 -> f32
+/// conversion before the shape check): 2 stored values, rank-1 shape fully
+/// symbolic: accepted only if the shape says 2 elements, never a panic.
+#[kani::proof]
+#[kani::unwind(12)]
+#[kani::stub(alloc::fmt::format, fmt_stub)]
+fn c05_q_onnx_f16_constant_rank1() {
+    let halfs: [i32; 2] = kani::any();
+    let shape: [usize; 1] = kani::any();
+    let r = convert_f16_constant(None, &shape, None, None, &halfs);
+    kani::cover!(r.is_ok(), "f16 initializer accepted");
+    kani::cover!(r.is_err(), "f16 initializer rejected");
+    match r {
+        Ok(c) => {
+            assert!(shape[0] == 2, "f16 initializer shape does not match its data");
+            std::mem::forget(c);
+        }
+        Err(e) => {
+            assert!(shape[0] != 2, "matching f16 initializer rejected");
+            std::mem::forget(e);
+        }
+    }
+}
